@@ -271,3 +271,79 @@ Definition get_hports_roots s recursive pat roots :=
   with_roots s roots (get_hports_entries s recursive pat).
 
 Definition pat_any (nm : str) : bool := true.
+
+(* ------------------------------------------------------------------------------------------ *)
+(* YIELD ORDER, where it is a function of the design: ONE root that is a netlist or a reference to a
+   hierarchical instance, selection INSIDE (get_hpins / get_hports: always). Nothing is yielded
+   directly; the answer is produced by the pattern loop over the name map alone, and no Python set
+   is iterated:
+     - registration order (_update_*_namemap): depth first; the children of an instance are pushed
+       in order and popped from the END of the stack, i.e. visited in REVERSE order; per instance
+       the cables (ports) in order, per cable (port) the wires (pins) in order;
+     - namemap is a dict keyed by name (insertion order = first registration of the name), each
+       value the references registered under that name, in registration order;
+     - for pattern in patterns: absolute -> namemap[pattern]; otherwise every name of the dict, in
+       order, that matches; a reference is yielded the first time it comes up.
+   A name that is not a string makes str.join raise: no answer (None of the inner option).      *)
+Fixpoint walk_rev (s : state) (keep : id -> bool) (fuel : nat) (h : href) : option (list href) :=
+  match fuel with
+  | O => None
+  | S f =>
+      match h with
+      | [] => Some []
+      | x :: _ =>
+          match flat_opt (fun c => walk_rev s keep f (c :: h)) (rev (filter keep (sub s x))) with
+          | Some l => Some (h :: l)
+          | None => None
+          end
+      end
+  end.
+
+Definition scope_rev (s : state) (keep : id -> bool) (recursive : bool) (h : href) : option (list href) :=
+  if recursive then walk_rev s keep (depth_fuel s) h else Some [h].
+
+Inductive okind := OWires | OCables | OPins | OPorts.
+
+Definition registrations (s : state) (k : okind) (recursive : bool) (obj : href) : option (list href) :=
+  match k with
+  | OWires => option_map (flat_map (hwires_at s)) (scope_rev s (nonleaf_ref s) recursive obj)
+  | OCables => option_map (flat_map (hcables_at s)) (scope_rev s (nonleaf_ref s) recursive obj)
+  | OPins => option_map (flat_map (hpins_at s)) (scope_rev s (has_ref s) recursive obj)
+  | OPorts => option_map (flat_map (hports_at s)) (scope_rev s (has_ref s) recursive obj)
+  end.
+
+Fixpoint names_first (seen : list str) (l : list str) : list str :=
+  match l with
+  | [] => seen
+  | n :: l' => if existsb (str_eqb n) seen then names_first seen l' else names_first (seen ++ [n]) l'
+  end.
+
+Fixpoint all_some {T} (l : list (option T)) : option (list T) :=
+  match l with
+  | [] => Some []
+  | Some x :: l' => option_map (cons x) (all_some l')
+  | None :: _ => None
+  end.
+
+Definition pattern_loop (ab : str -> bool) (mt : str -> str -> bool) (pats : list str)
+           (regs : list (str * href)) : list href :=
+  let names := names_first [] (map fst regs) in
+  let under (nm : str) := map snd (filter (fun e => str_eqb (fst e) nm) regs) in
+  fold_left (fun acc p =>
+               href_union acc (if ab p then under p
+                               else flat_map under (filter (fun nm => mt p nm) names)))
+            pats [].
+
+(* outer None = out of fuel; inner None = the code raises on a name that is not a string *)
+Definition get_ordered (s : state) (k : okind) (recursive : bool) (ab : str -> bool)
+           (mt : str -> str -> bool) (pats : list str) (obj : href) : option (option (list href)) :=
+  if negb (is_valid s obj) then Some (Some [])
+  else
+    match registrations s k recursive obj with
+    | None => None
+    | Some regs =>
+        match all_some (map (rel_name s (pred (length obj))) regs) with
+        | None => Some None
+        | Some nms => Some (Some (pattern_loop ab mt pats (combine nms regs)))
+        end
+    end.
